@@ -30,6 +30,8 @@ func checkC16(r *Report, p *Program) {
 	r16_5(r, p, dec)
 	r16_6(r, p, dec)
 	keyCompleteness(r, p, "R16.7", "updateStrategyMapKey", "selectorMapKey")
+	// nothing — not even the finalizer — is put on an object that is not selected (shared with C10)
+	r10_1(r, p, syncEntries(r, p, "R10.1"))
 }
 
 func r16_1(r *Report, p *Program, e *syncEntry) {
